@@ -27,10 +27,11 @@ func main() {
 	r := common.Start("C14", "model_checking")
 	pureFunctions(r)
 	flexSearch(r)
+	selfAliasSizes(r)
 	r.Assume(
 		"small-scope (pure functions): element alphabet {0,1,2} with s1 up to 5 and s2 up to 3 elements (thorough: {0,1,2,3}, 6 and 4); element type int only",
 		"dst layouts: nil, fresh len 0 with cap 0 / 1 / 16, s1[:0], s2[:0], and s2 being the very same slice as s1; partially overlapping operands are not enumerated",
-		"FlexSlice: element type int, every inserted value fresh and distinct (FlexSlice is generic over T any and cannot inspect values), states merged on (len, cap, contents renamed by first appearance); the content of the spare capacity is not part of the key because no FlexSlice method reads it and any value leaking from it differs from every expected value",
+		"FlexSlice: element type int in the search (1-, 2-, 8-, 16-, 24- and 0-byte element types in the self-aliasing family), every inserted value fresh and distinct (FlexSlice is generic over T any and cannot inspect values), states merged on (len, cap, contents renamed by first appearance); the content of the spare capacity is not part of the key because no FlexSlice method reads it and any value leaking from it differs from every expected value",
 		"FlexSlice.SubSlice is explored as a transition (the search continues on the returned FlexSlice); what later operations on the result do to the receiver that shares its memory is unspecified and not checked",
 		"capacities produced by append depend on the Go runtime's growth policy (go_version is recorded); only contents, lengths and return values are compared with the model, never capacities")
 	r.Finish("every input of each family is enumerated once (no sampling); non-trivial = set operation / filter / unique cases whose definition result is a non-empty proper sub-sequence of s1, Equal pairs of equal length, Index-family cases with the value present, SubSlice/Copy/Remove cases with at least one argument outside [0,len], Chunk cases with >= 2 pieces or chunkSize <= 0, Values cases with >= 1 element, FlexSlice transitions that change the capacity or move elements (Prepend onto a non-empty slice, Remove not at the end, SubSlice with start > 0)")
